@@ -138,6 +138,65 @@ fn rand_cuesheet(rng: &mut Rng) -> Option<Cuesheet> {
     }
 }
 
+/// CUESHEET blocks assembled by hand through the public constructors (`Vec -> Contiguous`,
+/// `IndexVec::try_from`, `LeadOut*::new`), mostly well-formed, sometimes breaking one rule
+/// (first track not number 1 / not at offset 0, first index point not at 0, numbers not
+/// consecutive, offsets not ascending, lead-out before the last track).  `None` = a constructor
+/// refused, which is fine; whatever is constructed and then accepted by the writer must read back.
+fn hand_cuesheet(rng: &mut Rng) -> Option<Cuesheet> {
+    use flac_codec::metadata::contiguous::Contiguous;
+    use flac_codec::metadata::cuesheet::{CDDAOffset, Index, IndexVec, LeadOutCDDA, LeadOutNonCDDA, TrackCDDA, TrackNonCDDA, ISRC};
+    let cd = rng.chance(1, 2);
+    let ntracks = *rng.pick(&[1usize, 2, 3, 7]);
+    let rule = rng.below(10); // 0..=5: one rule broken; else well-formed
+    let mut spec: Vec<(u64, u8, Vec<(u64, u8)>)> = vec![];
+    let mut pos = 0u64;
+    for t in 0..ntracks {
+        let first_idx = if rng.chance(1, 2) { 0u8 } else { 1 };
+        let nidx = rng.usize(1, 3);
+        let mut off = 0u64;
+        let mut pts = vec![];
+        for k in 0..nidx {
+            pts.push((off, first_idx + k as u8));
+            off += rng.range(1, 300) as u64;
+        }
+        spec.push((pos, (t + 1) as u8, pts));
+        pos += off + rng.range(1, 3000) as u64;
+    }
+    let mut lead = pos + rng.range(1, 3000) as u64;
+    match rule {
+        0 => spec[0].1 = *rng.pick(&[0u8, 2, 5, 99]),
+        1 => spec[0].0 = rng.range(1, 50) as u64,
+        2 => spec[0].2[0].0 = rng.range(1, 50) as u64,
+        3 if ntracks > 1 => spec[ntracks - 1].1 = spec[ntracks - 1].1.wrapping_add(*rng.pick(&[1u8, 2, 200])),
+        4 if ntracks > 1 => spec[ntracks - 1].0 = spec[0].0,
+        5 => lead = spec[ntracks - 1].0.saturating_sub(1),
+        _ => {}
+    }
+    if cd {
+        let sectors = |s: u64| CDDAOffset::try_from(s * 588).ok();
+        let tracks = spec
+            .iter()
+            .map(|(offset, number, points)| {
+                let points: Contiguous<100, Index<CDDAOffset>> = points.iter().map(|(o, n)| Some(Index { offset: sectors(*o)?, number: *n })).collect::<Option<Vec<_>>>()?.try_into().ok()?;
+                Some(TrackCDDA { offset: sectors(*offset)?, number: (*number).try_into().ok()?, isrc: ISRC::None, non_audio: rng.chance(1, 4), pre_emphasis: rng.chance(1, 4), index_points: IndexVec::try_from(points).ok()? })
+            })
+            .collect::<Option<Vec<TrackCDDA>>>()?;
+        let tracks: Contiguous<99, TrackCDDA> = tracks.try_into().ok()?;
+        Some(Cuesheet::CDDA { catalog_number: None, lead_in_samples: 88200, lead_out: LeadOutCDDA::new(tracks.last(), sectors(lead)?).ok()?, tracks })
+    } else {
+        let tracks = spec
+            .iter()
+            .map(|(offset, number, points)| {
+                let points: Contiguous<256, Index<u64>> = points.iter().map(|(o, n)| Index { offset: *o, number: *n }).collect::<Vec<_>>().try_into().ok()?;
+                Some(TrackNonCDDA { offset: *offset, number: (*number).try_into().ok()?, isrc: ISRC::None, non_audio: rng.chance(1, 4), pre_emphasis: rng.chance(1, 4), index_points: IndexVec::try_from(points).ok()? })
+            })
+            .collect::<Option<Vec<TrackNonCDDA>>>()?;
+        let tracks: Contiguous<254, TrackNonCDDA> = tracks.try_into().ok()?;
+        Some(Cuesheet::NonCDDA { catalog_number: vec![], lead_out: LeadOutNonCDDA::new(tracks.last(), lead).ok()?, tracks })
+    }
+}
+
 pub fn rand_blocklist(rng: &mut Rng) -> BlockList {
     let mut bl = BlockList::new(rand_streaminfo(rng));
     let n = rng.usize(0, 7);
@@ -163,7 +222,7 @@ pub fn rand_blocklist(rng: &mut Rng) -> BlockList {
                 bl.insert(vc);
             }
             4 => {
-                if let Some(c) = rand_cuesheet(rng) {
+                if let Some(c) = if rng.chance(1, 3) { hand_cuesheet(rng) } else { rand_cuesheet(rng) } {
                     bl.insert(c);
                 }
             }
@@ -624,7 +683,25 @@ pub fn extreme_section(rng: &mut Rng) -> (Vec<u8>, String) {
     };
     let sib = rm::RawBlock { btype: 0, body: si.to_bytes().to_vec() };
     let big = [0u32, 1, 0x7FFF_FFFF, 0x8000_0000, 0xFFFF_FFFF, 0x00FF_FFFF, 0x0100_0000];
-    let (extra, what): (rm::RawBlock, String) = match rng.below(12) {
+    let (extra, what): (rm::RawBlock, String) = match rng.below(14) {
+        12 | 13 => {
+            // well-formed comment block whose channel-mask tag carries a hostile value: the block
+            // parses, the accessor (`channel_mask()` of every reader and of the block list) must cope
+            let key = *rng.pick(&["WAVEFORMATEXTENSIBLE_CHANNEL_MASK", "waveformatextensible_channel_mask", "WaveFormatExtensible_Channel_Mask"]);
+            let vals: [&[u8]; 22] = [
+                b"", b"0", b"x", b"0x", b"0X", b"0X3", b"0x3", b" 0x3 ", b"0xZZ", b"3", b"0x00000000000000000000000000000000003", b"0xFFFFFFFFFFFFFFFFFFFF",
+                "0\u{e9}".as_bytes(), "1\u{20ac}".as_bytes(), "\u{1f3b5}".as_bytes(), "\u{e9}x3".as_bytes(), "0x\u{e9}".as_bytes(), b"0x-3", b"0x+3", b"-0x3", b"0x 3", b"=0x3",
+            ];
+            let v = *rng.pick(&vals);
+            let mut field = key.as_bytes().to_vec();
+            field.push(b'=');
+            field.extend_from_slice(v);
+            let mut fields = vec![b"TITLE=t".to_vec(), field];
+            if rng.chance(1, 3) {
+                fields.push(format!("{key}=0x4").into_bytes());
+            }
+            (rm::vorbis_comment(b"v", &fields), format!("channel mask tag value {:?}", String::from_utf8_lossy(v)))
+        }
         0 => {
             // vorbis comment: vendor length lies
             let mut b = rm::vorbis_comment(b"vendor", &[b"A=b".to_vec()]);
@@ -715,6 +792,50 @@ pub fn extreme_section(rng: &mut Rng) -> (Vec<u8>, String) {
                 _ => vec![],
             };
             (rm::cuesheet(&catalog, rng.next() >> rng.below(64), is_cd, &tracks), format!("cuesheet cd={is_cd} tracks={ntracks}"))
+        }
+        10 if rng.chance(2, 3) => {
+            // structurally VALID cue sheets (ascending tracks and index points, proper lead-out) whose
+            // numbers sit at the extremes, so that they parse and reach the accessors / the renderer:
+            // track offset + index offset beyond u64::MAX, lead-out at u64::MAX, 99 / 254 tracks
+            let is_cd = rng.chance(1, 2);
+            let unit: u64 = if is_cd { 588 } else { 1 };
+            let align = |v: u64| v - v % unit;
+            let ntracks = *rng.pick(&[1usize, 2, 3, 5]);
+            let mut offs: Vec<u64> = (0..ntracks)
+                .map(|_| match rng.below(5) {
+                    0 => align(u64::MAX - rng.below(10_000_000)),
+                    1 => align(u64::MAX / 2 + rng.below(1 << 40)),
+                    2 => align(1 << 40),
+                    _ => align(rng.below(1 << 33)),
+                })
+                .collect();
+            offs.sort_unstable();
+            offs.dedup();
+            offs[0] = 0;
+            let mut tracks = vec![];
+            for (t, toff) in offs.iter().enumerate() {
+                let first = if rng.chance(1, 2) { 0u8 } else { 1 };
+                let nidx = rng.usize(1, 4);
+                let mut off = 0u64;
+                let mut indices = vec![];
+                for k in 0..nidx {
+                    indices.push(rm::CueIndex { offset: off, number: first + k as u8 });
+                    off = off.saturating_add(align(match rng.below(4) {
+                        0 => u64::MAX / 2,
+                        1 => 20_000_000,
+                        _ => 588 * rng.range(1, 5000) as u64,
+                    }));
+                    off = align(off);
+                }
+                tracks.push(rm::CueTrack { offset: *toff, number: (t + 1) as u8, isrc: [0; 12], non_audio: false, pre_emphasis: rng.chance(1, 4), indices });
+            }
+            let lead = align(match rng.below(3) {
+                0 => u64::MAX,
+                1 => offs.last().copied().unwrap_or(0).saturating_add(588 * 1000),
+                _ => u64::MAX - 588 * 3,
+            });
+            tracks.push(rm::CueTrack { offset: lead, number: if is_cd { 170 } else { 255 }, isrc: [0; 12], non_audio: false, pre_emphasis: false, indices: vec![] });
+            (rm::cuesheet(b"", if is_cd { 88200 } else { 0 }, is_cd, &tracks), format!("valid-extreme cuesheet cd={is_cd} tracks={}", offs.len()))
         }
         10 => (rm::RawBlock { btype: *rng.pick(&[7u8, 50, 126, 127]), body: rng.rbytes(0, 30) }, "reserved / invalid block type".into()),
         _ => (rm::application([1, 2, 3, 4], &rng.rbytes(0, 3))
